@@ -49,6 +49,18 @@ CLAIMED = {
    note=TRUST + "Result order of determine (Python __subclasses__() order) is tied by the correspondence; the oracle compares as a "
         "multiset. One defect repaired by a fix: commit (16b787e, degree(n,'d') TypeError).",
    design="§4 C05"),
+ "C06": dict(
+   text="Builders are translated from chords.py by symbolic evaluation into lists of note expressions (root / interval "
+        "constructor / augment / diminish), regenerated every run and proved equal (as finite maps) to the model's tables. "
+        "Lean: builders_match_formulas (whole table, kernel) + evalBuilder_good (induction over expressions on C02's ctor_spec) "
+        "give shorthand_formula: for every known shorthand and every root with any accidentals the parsed chord starts on the "
+        "root and each note is on the formula's letter and semitone distance. plain_parse, alias_interchangeable (all alias "
+        "spellings of every key), unknown_shorthand and bad_root are unbounded in the root; constructible = meaningful and "
+        "same meaning => same builder are whole-table facts; slash and polychord semantics are kernel evaluations over a "
+        "stated finite domain (all keys x 21 roots x 4 basses; 14x14 shorthands x 6 root pairs).",
+   note=TRUST + "Slash/polychord clauses are finite-domain theorems, tied beyond that domain by the correspondence only. One defect "
+        "repaired by a fix: commit (a771e68).",
+   design="§4 C06"),
  "C04": dict(
    text="Whole-table kernel evaluation (decide +kernel) of everything the statement says about each of the 30 keys, the 15 "
         "relative couples, the key objects and signature<->key inversion; unbounded theorems for rejections (any string, any "
